@@ -320,6 +320,16 @@ def tuple_get(string, count=None):
     if not string:
         return None
 
+    # A stored odml style tuple is a list of strings and is valid input as well.
+    if isinstance(string, (list, tuple)):
+        res = [str(x).strip() for x in string]
+        if count is not None and not len(res) == count:
+            msg = "%s-tuple value does not match required item length" % count
+            raise ValueError(msg)
+        if any(";" in x for x in res):
+            raise ValueError("Tuple items must not contain the separator ';'")
+        return res
+
     string = string.strip()
     if not (string.startswith("(") and string.endswith(")")):
         msg = "Tuple value misses brackets: '%s'" % string
